@@ -11,8 +11,7 @@ SEQ_TECH = "Coq refinement proof (congruence of the concrete step w.r.t. live co
 MAINT_NOTE = ("Trusted: Coq kernel; extraction; OCaml replayer; Go harness; the hook verifPoint(1) and VerifAudit (tag verif). Modelled, not verified: "
               "floating-point window sizing and hill climber (maxima <= 12 in the closed-loop engine), maphash (hashes read from the implementation), the striped read buffer as one ring. "
               "Proved over all event lists: the policy bookkeeping invariant with tasks reaching the write buffer in any order (PolicyInv.v, C05) and the timer-wheel placement invariant (WheelInv.v, C13). "
-              "Not a theorem: that the eviction loop always restores the bound (fuel / cursor exhaustion, C04_loop_exit_partial) — that part rests on the closed-loop correspondence (every deque, counter "
-              "and bucket after every operation, every eviction predicted) and on the bound oracle evaluated on the implementation at every quiescent point.")
+              "that the eviction loop restores the bound within its fuel (PolicyBound.v, C04). Equalities of counters are modulo 2^64; the window / protected maxima are inputs of the model.")
 MAINT_TECH = "Coq proof (loop-step lemmas, invariants) over an executable policy/wheel model + closed-loop model/implementation replay with internal-state audit"
 
 LOAD_NOTE = ("Trusted: Coq kernel, extraction, OCaml replayer, Go harness with a gated loader. The protocol model's steps are the code's atomic sections (one hashmap.Compute each); their atomicity is C15's business and is "
@@ -27,7 +26,7 @@ TEXTS = {
                design_ref="DESIGN.md section 5, C02",
                note="Trusted: Coq kernel, extraction, OCaml search, Go harness. Meta-assumption: atomicity of the table's Get/Compute (C15) and sequential consistency of sync/atomic. No expiry calculator in the theorem.",
                technique="Coq proof (simulation invariant over all schedules of an action-level model) + linearizability search on recorded concurrent histories with the extracted model as oracle"),
-    "C14": dict(text="Coq theorems, exhaustive over ALL schedules for a bounded initial population (1 writer; 2 concurrent writers; every maintenance task they spawn): in every terminal configuration of the small-step drain-status "
+    "C14": dict(text="Coq theorems, exhaustive over ALL schedules for a bounded initial population (1 writer; 2 concurrent writers; 1 writer and 1 explicit CleanUp caller; every maintenance task they spawn): in every terminal configuration of the small-step drain-status "
                      "model all threads have finished, the write buffer is empty, the status is idle and the lock is free — proved by computing the closed reachable set in the kernel (vm_compute) plus a soundness lemma. "
                      "Engine: the real cache with the default executor under hook-injected perturbation; after the calls return only atomic loads are made and quiescence, bound, policy links and notification counts are checked.",
                design_ref="DESIGN.md section 5, C14",
@@ -59,9 +58,10 @@ TEXTS = {
                design_ref="DESIGN.md section 5, C17",
                note="Trusted: Coq kernel, extraction, OCaml replayer, Go harness, hook verifPoint in ring.go (tag verif). Modelled: sync/atomic as sequentially consistent steps. The stripe table (expandOrRetry) is not in the Coq model.",
                technique="Coq proof: invariant by induction over all schedules of a small-step protocol model + schedule execution on the implementation through yield points"),
-    "C04": dict(text="Coq theorems on the W-TinyLFU eviction loop: a node is evicted for size only while total weight > maximum, never with weight 0; the loop exits only with the bound restored or both "
-                     "cursors exhausted; an oversized node is evicted by the task that introduces it. The implementation's policy is replayed in a closed loop by the extracted model (all deques/counters compared "
-                     "after every operation, every eviction predicted) and the bound is checked on the implementation at every quiescent point, including after SetMaximum.",
+    "C04": dict(text="Coq theorems (PolicyBound.v on PolicyInv.v) over ALL event lists of the maintenance model (index actions, tasks reaching the write buffer in any order, reads, maintenance runs, SetMaximum): a maintenance run that starts with no task in flight "
+                     "ends quiescent with the policy's total equal (mod 2^64) to the weights of the entries present and at most the maximum (or zero); evictNodes alone restores the bound and the model's loop fuel always suffices (decreasing measure over both cursors); "
+                     "a node is evicted for size only while total weight > maximum, never with weight 0; an oversized node is evicted by the task that introduces it. The implementation's policy is replayed in a closed loop by the extracted model (all deques/counters compared "
+                     "after every operation, every eviction predicted, write events also consumed in permuted orders) and the bound is checked on the implementation at every quiescent point, including after SetMaximum.",
                design_ref="DESIGN.md section 5, C04", note=MAINT_NOTE, technique=MAINT_TECH),
     "C05": dict(text="Coq theorems (PolicyInv.v) over ALL event lists of the maintenance model — index actions creating add/update/delete tasks, tasks reaching the write buffer in ANY order, reads, maintenance runs, SetMaximum: "
                      "a bookkeeping invariant (deques duplicate-free and disjoint, tags match, no dead node linked, alive+consumed implies linked, the three wrapping counters = sums over the node store with coefficient "
